@@ -115,7 +115,7 @@ func init() {
 		Assumptions: []string{"operands satisfy the representation invariant Inv (A.1)", archNote, contractNote, "known finding KF-fma-product-range does not concern these operations"},
 		LevelText:   "Bounded symbolic model checking of the real Add/Sub/Mul/Quo/Set/SetPrec/Neg/Abs code: for each shape cell (word counts, digit alignment, precision) the solver proves that the receiver equals roundRef(exact result) for ALL word values, signs, rounding modes and exponents; a failed obligation yields a concrete input that is replayed on both builds.",
 		LevelNote:   trusted + " " + archNote + " " + contractNote,
-		Timeout:     map[string]time.Duration{"quick": 150 * time.Second, "thorough": 300 * time.Second},
+		Timeout:     map[string]time.Duration{"quick": 300 * time.Second, "thorough": 300 * time.Second},
 	})
 	Register(&PropDef{
 		ID: "C02", Level: "model_checking", Contracts: "default", DesignRef: "DESIGN.md 5 (C02)",
@@ -139,6 +139,6 @@ func init() {
 		Assumptions: []string{"operands satisfy Inv (A.1)", archNote, contractNote},
 		LevelText:   "Same symbolic runs as C01 with the accuracy obligations enabled: Acc() == sign(stored - exact), Exact iff nothing lost, including overflow to Inf and underflow to 0; plus the integer setters, SetMantExp and FMA.",
 		LevelNote:   trusted + " " + archNote,
-		Timeout:     map[string]time.Duration{"quick": 150 * time.Second, "thorough": 300 * time.Second},
+		Timeout:     map[string]time.Duration{"quick": 300 * time.Second, "thorough": 300 * time.Second},
 	})
 }
